@@ -10,6 +10,13 @@ def namedb_tasks():
     return [dict(name="NameDatabase.gensym", build=n.t_gensym, mode="U"), dict(name="NameDatabase.__getitem__", build=n.t_getitem, mode="U"), dict(name="lemma.symbols_of_distinct_objects", build=n.t_two_objects, mode="U")]
 
 
+def valuetype_tasks():
+    """the built-in value types against their documented meaning (mode U, contracts/valuetypes_c.py)"""
+    from contracts import valuetypes_c as v
+
+    return [dict(name=f"valuetype/{n}", build=b, mode="U") for n, b in v.TASKS]
+
+
 def entry_tasks(tier):
     return namedb_tasks() + [dict(name="generate_dispatch.instances", build=entry_c.entry_task(tier, native), mode="F")]
 
